@@ -120,7 +120,9 @@ PROPS['C02'] = {
     'level': 'proof',
     # the per-peer envelope decisions: nothing is interpreted unless plain mode was negotiated or a ready core opened it; nothing leaves
     # unsealed unless plain mode was negotiated (unit buffer, the same verbatim functions as for C08)
-    'verus': [{'unit': 'buffer', 'fns': ['PeerCrypto::(decrypt_message|encrypt_message|handle_message|send_message|get_core)', 'CryptoCore::(decrypt|encrypt)', 'is_init_message']}],
+    'verus': [{'unit': 'buffer', 'fns': ['PeerCrypto::(decrypt_message|encrypt_message|handle_message|send_message|get_core)', 'CryptoCore::(decrypt|encrypt)', 'is_init_message']},
+              # key material of the slots a receiver is willing to open: the negotiated key or fresh random bytes, never constants
+              {'unit': 'corekeys'}],
     'kani': {
         'files': {'src/crypto/core.rs': ['kani/coreblocks.rs.in', 'kani/core.rs']},
         'harnesses': [H_ENC, H_DEC, H_AGR,
@@ -131,6 +133,7 @@ PROPS['C02'] = {
                       r'kani::core::decrypt_with_key_contract': WINDOW_DRV},
     'trusted': [
         'AEAD axioms (ring): open succeeds only for the key, nonce and ciphertext||tag that seal produced; ring entry points are stubbed by oracles that record key/nonce',
+        'unit corekeys: ring objects opaque; secret(bytes) = "came out of SystemRandom::fill" (uninterpreted); R5 pinned statements `rand.fill(&mut data).expect(..)` and `LessSafeKey::new(UnboundKey::new(alg, &data).unwrap())`',
         'block contracts: the statements of encrypt/decrypt between the buffer split and the buffer re-adjustment are cut out verbatim; the surrounding MsgBuffer geometry is under contract in the Verus unit `buffer` (C08)',
     ],
     'not_decided': [
